@@ -180,6 +180,38 @@ def real_histories(ck, n_runs):
     return hs
 
 
+def giant_case(ck, T, N, stream):
+    """A history whose samples-by-iterations array exceeds 2**24 elements, compared with a blockwise long-double reference."""
+    rng = ck.rng("giant", stream)
+    ns = [N // T + (1 if t < N % T else 0) for t in range(T)]
+    betas = np.sort(rng.random(T))
+    betas[0] = 0.0
+    betas[-1] = 1.0
+    logl = [-(10 ** rng.uniform(0, 2)) * rng.random(n) ** 2 for n in ns]
+    logz = -betas * 3.0 + 0.1 * rng.standard_normal(T)
+    sm = build_state(logl, betas, logz)
+    bad = []
+    for beta in (0.42, 1.0):
+        lw, lz = sm.compute_logw_and_logz(beta)
+        allv = np.concatenate(logl)
+        lns = np.log(np.asarray(ns, dtype=LD)) - np.log(LD(sum(ns)))
+        ref = np.empty(len(allv), dtype=LD)
+        for a in range(0, len(allv), 65536):
+            blk = allv[a:a + 65536].astype(LD)
+            comp = blk[:, None] * betas.astype(LD)[None, :] - logz.astype(LD)[None, :] + lns[None, :]
+            m = comp.max(axis=1)
+            ref[a:a + 65536] = LD(beta) * blk - (m + np.log(np.sum(np.exp(comp - m[:, None]), axis=1)))
+        mm = ref.max()
+        tot = mm + np.log(np.sum(np.exp(ref - mm)))
+        refz = float(tot - np.log(LD(len(allv))))
+        err = float(np.max(np.abs(lw.astype(LD) - (ref - tot))))
+        if err > 1e-8 or abs(float(lz) - refz) > 1e-8:
+            j = int(np.argmax(np.abs(lw.astype(LD) - (ref - tot))))
+            bad.append(("formula-logw-large-history", f"T={T}, N={sum(ns)} ({T * sum(ns)} mixture elements), beta={beta}: log-weights differ from the reference by "
+                        f"{err:.3g} (worst at sample {j} of {len(allv)}), logz by {abs(float(lz) - refz):.3g}"))
+    return bad
+
+
 def run():
     ck = Check("C04")
     n = ck.pick(3000, 100000)
@@ -218,6 +250,16 @@ def run():
         from tvf.contracts_run import run_suite_with_contracts
         run_suite_with_contracts(ck, ['compute_logw_and_logz'])
     ck.tables["worst_error_over_tolerance"] = worst
+    for gi, (T, N) in enumerate(ck.pick([(40, 450_001)], [(40, 450_001), (48, 359_823), (16, 1_200_007), (100, 200_003)])):
+        try:
+            gbad = giant_case(ck, T, N, gi)
+        except MemoryError:
+            ck.note("giant history skipped: MemoryError")
+            continue
+        ck.case(dict(giant=dict(T=T, N=N, elements=T * N)))
+        ck.event("histories above 2**24 mixture elements compared with the blockwise reference")
+        for key, what in gbad:
+            ck.violation(key, what, dict(giant=dict(T=T, N=N)))
     ck.require_events("compute_logw_and_logz compared with reference", "real-run history prefix compared with reference")
     return ck.finish(
         rule="histories generated from VERIF_SEED (T in 1..12, unequal n_t incl. 1, betas sorted/any order/"
